@@ -19,7 +19,6 @@ from . import common
 
 KEY_ZERO_TAKE = "poulpy-cpu-ref/src/hal_defaults/scratch.rs:take_slice_aligned:zero-length-take:aligned_offset>len"
 KEY_DEALLOC = "poulpy-hal/src/lib.rs:alloc_aligned_custom_u8:dealloc-layout"
-KEY_ZERO_ROWS = "poulpy-hal/src/layouts/znx_base.rs:ZnxView::at:VmpPMat-with-zero-rows-or-cols_out"
 U64 = 1 << 64
 
 
@@ -168,12 +167,17 @@ def run(ctx):
         rc, pmod, _ = ctx.run_lines(drv, [], [re.sub(r"^(\d+) (prep|consume) be=(fft64|ntt120)(ref|avx)", r"\1 layout \2 be=\3", l) for l in pl])
         if len(pout) != len(pl):
             broken.append(f"harness prep run stopped after {len(pout)} of {len(pl)}")
-        zero_rows = None
         for l, a, b in zip(pl, pout, pmod):
             t = l.split()
             ctx.count_case(("prep", t[1], t[2], t[3] if t[1] == "prep" else "", t[-1]))
             av = a.split(" ", 1)[1]
             bv = b.split(" ", 1)[1]
+            if av.startswith("panic") or bv.startswith("panic"):
+                # degenerate shapes: the accessor's own assertion (offset + n <= n*poly_count) must fire on both sides
+                if av != bv:
+                    ctx.disagreements += 1
+                    disagree.append({"case": l, "model": b, "impl": a})
+                continue
             if t[1] == "consume":
                 same, rest = av.split(" ")
                 cmp_a = same + " " + ",".join(rest.split(",")[:3])
@@ -189,16 +193,9 @@ def run(ctx):
                 if len(disagree) < 10:
                     disagree.append({"case": l, "model": b, "impl": a})
             if inside != "1":
-                dims = [int(x) for x in t[-1].split("=")[1].split(",")]
-                if t[1] == "prep" and "kind=vmp" in l and (dims[1] == 0 or dims[3] == 0):
-                    zero_rows = zero_rows or {"case": l, "impl": a, "meaning": "scalar width, buffer bytes, largest slice end, inside"}
-                else:
-                    ctx.oracle_failures += 1
-                    oracle_fail.append({"case": l, "impl": a, "why": "a trait at(i,j)/raw() slice of a prepared layout lies outside its buffer"})
+                ctx.oracle_failures += 1
+                oracle_fail.append({"case": l, "impl": a, "why": "a trait at(i,j)/raw() slice of a prepared layout lies outside its buffer"})
         ctx.cov["prepared_layout_cases"] = len(pl)
-        if zero_rows:
-            ctx.violation("ZnxView::at on a VmpPMat with zero rows / zero output columns returns a slice outside the (empty) buffer",
-                          {"key": KEY_ZERO_ROWS, "witness": zero_rows}, True, key=KEY_ZERO_ROWS)
         # ---- canaries
         for be in ("fft64ref", "ntt120ref", "fft64avx", "ntt120avx"):
             for n in (2, 4, 8, 16):
